@@ -71,13 +71,13 @@ PROPS = {
         trusted=['T3 as for C07', 'T8 every configured mapping satisfies internal+range <= 2^32 and external+range <= 2^32 (map_ok; Vfs::new never validates it - DESIGN.md section 7, O2)'],
     ),
     'C01': dict(
-        vx_units=['server', 'fusedevw', 'cstrs', 'virtiofsw', 'writerenum', 'pseudofs'], kx=[], rx=['server', 'readdir'],
+        vx_units=['server', 'fusedevw', 'cstrs', 'virtiofsw', 'writerenum', 'pseudofs', 'msgbody'], kx=[], rx=['server', 'readdir'],
         # "check_available_space refuses writes beyond capacity" on the virtio-fs side and the Writer enum handing every write to the wrapped writer are C04 obligations
         # of units virtiofsw / writerenum: a failure of one of these counts for C01 ("never touches memory outside the supplied buffers ... over either transport") as well
         alias=[r'^C04\.vwriter\.space', r'^C04\.\w+\.exceeds_fails', r'^C04\.writer\.', r'^C16\.pseudo\.do_readdir\.offset_overflow'],      # + the pseudo fs listing must not panic on a hostile offset (D22)
         design_ref='DESIGN.md section 5, C01',
         not_covered=[
-            'memory safety of the unsafe blocks below the transport seam (get_message_body::set_len, Reader::read_obj, FuseDevWriter raw Vecs, virtio copy_nonoverlapping) and descriptor-chain construction',
+            'memory safety below the transport seam is decided elsewhere: get_message_body::set_len within the capacity just allocated (unit msgbody), Reader::read / read_obj raw copies and descriptor-chain construction (unit readerrd), FuseDevWriter raw Vecs (unit fusedevw), virtio copies (units virtiofsw / readerrd), FuseChannel::get_request (unit transrest) - each over models of the dependencies listed there; not covered: that the uninitialised bytes set_len exposes are all overwritten before use (the contract of read_exact says so; the contents are unspecified in between)',
             '"every well-formed request due an answer gets exactly one" is stated on results, because handlers consume their context by value: [C01.<op>.replied] (Ok(n) only with n >= 16, and the reply helpers return Ok(n) only after exactly one complete message of n bytes was emitted) and [C01.<op>.answered] (a complete request fails only with EncodeMessage, i.e. writing its reply failed); outside these clauses: DESTROY (handler returns nothing), IOCTL (its Reader::read model may fail for any reason), requests with a missing NUL / short body (the "explicit EINVAL reply then Err" paths are only held to at-most-one and to the reply bytes), READ / READDIR[PLUS] on a reply buffer smaller than a header',
             'that VirtioFsWriter refines the abstract Writer the handlers are verified against (FuseDevWriter does: unit fusedevw, C01.refine.*); for virtio-fs "one reply" is the used-ring entry the caller adds after handle_message, outside this crate',
         ],
@@ -86,7 +86,7 @@ PROPS = {
                  'T8 filesystems are arbitrary but return positive errnos and, for read, the count they appended to the writer'],
     ),
     'C02': dict(
-        vx_units=['server', 'arcfs', 'cstrs'], kx=[], rx=['server'],
+        vx_units=['server', 'arcfs', 'cstrs', 'msgbody'], kx=[], rx=['server'],
         design_ref='DESIGN.md section 5, C02',
         not_covered=[
             'any handler listed as body=assumed in functions_under_contract (none at the time of writing; SETXATTR is verified with Iterator::position(is NUL) replaced by a model call)',
@@ -94,7 +94,7 @@ PROPS = {
             'identity of the payload reader handed to FileSystem::write and of the writer handed to read (only their non-stream arguments are pinned)',
         ],
         trusted=['T3 as C01', 'T8 F::Inode / F::Handle conversions are functions (vstd FromSpec / IntoSpec obeys_*)',
-                 'contract-only helper: ServerUtil::get_message_body (unsafe set_len); bytes_to_cstr and ServerUtil::extract_two_cstrs are verified on their real text in unit cstrs against the very contracts unit server assumes (std only is assumed there: Iterator::position(is NUL), range indexing with the in-bounds condition as an obligation, CStr::from_bytes_with_nul as documented)'],
+                 'ServerUtil::get_message_body (unit msgbody), bytes_to_cstr and ServerUtil::extract_two_cstrs are verified on their real text in unit cstrs against the very contracts unit server assumes (std only is assumed there: Iterator::position(is NUL), range indexing with the in-bounds condition as an obligation, CStr::from_bytes_with_nul as documented)'],
     ),
     'C03': dict(
         vx_units=['server'], kx=[], rx=['server', 'readdir'],
